@@ -23,6 +23,26 @@ theorem generated_reconnect_shape :
      Scipipe.Workflow_RunToProcs.any (fun a => a.isCall "runProcs" && a.args == ["procsToRun"]) &&
      Scipipe.Workflow_Run.any (fun a => a.isCall "runProcs" && a.args == ["wf.procs"])) = true := by decide
 
+/-- the rewiring loop is the one `Graph.reconnect` models: for every process of the run set, every out-port
+(file and parameter), every remote: disconnect when the remote's process is nil or not in `procs`; afterwards
+connect the out-port to the sink iff it is not `Ready`; `Disconnect` marks a port without remotes as not ready -/
+theorem generated_reconnect_loop :
+    (let l := Scipipe.Workflow_reconnectDeadEndConnections
+     before l (fun a => a.kind == .rangeB_ && a.name == "procs") (fun a => a.kind == .rangeB_ && a.name == "OutPorts()") &&
+     before l (fun a => a.kind == .rangeB_ && a.name == "RemotePorts" && a.recv == "opt") (fun a => a.kind == .ifB_ && a.name == "ipt.Process() == nil") &&
+     before l (fun a => a.kind == .ifB_ && a.name == "ipt.Process() == nil") (fun a => a.isCall "Disconnect" && a.recv == "opt" && a.args == ["iptName"]) &&
+     l.any (fun a => a.kind == .assign_ && a.name == "_,ok" && a.args == ["procs[ipt.Process().Name()]"]) &&
+     l.any (fun a => a.kind == .assign_ && a.name == "_,ok" && a.args == ["procs[rpp.Process().Name()]"]) &&
+     count (fun a => a.kind == .ifB_ && a.name == "!ok") l == 2 &&
+     before l (fun a => a.isCall "Disconnect" && a.recv == "pop") (fun a => a.kind == .ifB_ && a.name == "!pop.Ready()") &&
+     before l (fun a => a.kind == .ifB_ && a.name == "!pop.Ready()") (fun a => a.isCall "FromParam" && a.recv == "wf.sink") &&
+     count (fun a => a.kind == .break_ || a.kind == .continue_ || a.kind == .ret_) l == 0 &&
+     Scipipe.OutPort_Disconnect.any (fun a => a.isCall "removeRemotePort") &&
+     Scipipe.OutPort_Disconnect.any (fun a => a.kind == .ifB_ && a.name == "len(pt.RemotePorts) == 0") &&
+     Scipipe.OutPort_Disconnect.any (fun a => a.isCall "SetReady" && a.args == ["false"]) &&
+     Scipipe.OutParamPort_Disconnect.any (fun a => a.kind == .ifB_ && a.name == "len(pop.RemotePorts) == 0") &&
+     Scipipe.OutParamPort_Disconnect.any (fun a => a.isCall "SetReady" && a.args == ["false"])) = true := by decide
+
 /-- `BaseProcess.Ready` looks at every in-port, out-port and both kinds of parameter ports -/
 theorem generated_ready_shape :
     (let l := Scipipe.BaseProcess_Ready
@@ -33,6 +53,7 @@ theorem generated_ready_shape :
 theorem c16_on_source (wf : Wf) (hac : acyclic wf) (ts : List Nat) (hts : ∀ t ∈ ts, t ≤ wf.n) :
     ∃ rs, runSet runSem wf (some ts) = some rs ∧ rs.Nodup ∧ ∀ q, q ∈ rs ↔ q ∈ ts ∨ ∃ t ∈ ts, Reach wf q t :=
   c16_runset_is_closure runSem generated_run_sem_good.1 generated_run_sem_good.2.2.2.2.2.2.1 generated_run_sem_good.2.2.2.2.2.2.2 wf hac ts hts
+
 
 
 
@@ -115,5 +136,6 @@ end SciVerif.Tie
 #print axioms SciVerif.Tie.pinned_skeletons_c16
 #print axioms SciVerif.Tie.generated_run_sem_good
 #print axioms SciVerif.Tie.generated_reconnect_shape
+#print axioms SciVerif.Tie.generated_reconnect_loop
 #print axioms SciVerif.Tie.generated_ready_shape
 #print axioms SciVerif.Tie.c16_on_source
